@@ -78,7 +78,7 @@ def run_instances(run, tag, instances, nontrivial, kind_key="rolling"):
     return all_cases
 
 
-def concurrent_traces(run, tag, trig, limit, runs):
+def concurrent_traces(run, tag, trig, limit, runs, long=0):
     """impl -> spec: several real threads append through one appender; the trace (events emitted under the
     appender's mutex, with the parsed directory) must be a behaviour of Rolling.tla (Trace_Rolling.tla)."""
     import json
@@ -93,7 +93,7 @@ def concurrent_traces(run, tag, trig, limit, runs):
         f.write("CONSTRAINT Track\nPOSTCONDITION Accepted\nCHECK_DEADLOCK FALSE\n")
     wd = C.workdir("%s_trace_%s_%d" % (tag, trig, limit))
     tp = os.path.join(wd, "trace.ndjson")
-    p = C.run_harness(["rolltrace", tp, trig, str(limit), str(runs), str(C.seed() + limit)], timeout=1800)
+    p = C.run_harness(["rolltrace", tp, trig, str(limit), str(runs), str(C.seed() + limit), str(long)], timeout=1800)
     summ = json.loads(p.stdout.strip().splitlines()[-1])
     if summ["start_events"] == 0:
         raise C.ToolError("instrumentation missing: no rolling.locked hook events recorded")
